@@ -100,6 +100,9 @@ std::string op_to_string(const Op &op, int rank) {
     case OP_BIGCASE: s += "," + bigcase_text(bigcase_decode(op.att.v)); break;
     case OP_DEF_DIM: s += ",'" + op.name + "'," + std::to_string(op.a[0]); break;
     case OP_DEF_VAR: s += ",'" + op.name + "'," + nc_type_name((int)op.a[0]) + ",dims=" + vec_s(op.dims); break;
+    case OP_FILL_VAR_REC: s += ",var=" + std::to_string(op.var) + ",rec=" + std::to_string(op.a[0]) + (op.a[1] ? " (odd ranks: rec=" + std::to_string(op.a[0] + op.a[1]) + ")" : ""); break;
+    case OP_DEF_VAR_FILL: s += ",var=" + std::to_string(op.var) + (op.a[0] ? ",NOFILL" : ",FILL") + (op.a[1] && !op.a[0] ? ",value=" + std::to_string(op.a[2]) : ""); break;
+    case OP_SET_FILL: s += op.a[0] ? ",NC_FILL" : ",NC_NOFILL"; break;
     case OP_COPY_ATT: s += ",var=" + std::to_string(op.var) + ",'" + op.name + "'->f" + std::to_string(op.a[0]) + ",var=" + std::to_string(op.a[1]); break;
     case OP_PUT_ATT: s += ",var=" + std::to_string(op.var) + ",'" + op.name + "'," + nc_type_name(op.att.type) + ",n=" + std::to_string(op.att.v.size()); break;
     case OP_PUT: case OP_GET: case OP_IPUT: case OP_IGET: case OP_BPUT: {
